@@ -128,3 +128,20 @@ Theorem c20_watcher_loop_pinned :
     [s "<-done => log; return"; s "event := <-watcher.Events => filterEvent(watcher, event, filename, action)"; s "err = <-watcher.Errors => log"].
 Proof. vm_compute. reflexivity. Qed.
 Print Assumptions c20_watcher_loop_pinned.
+
+(* Errors the watcher reports in between (any number, anywhere in the history): the loop of the code logs them and goes
+   on, so the safety of its order is unaffected - at rest it has loaded the file's current contents, watches it, and has
+   not stopped.  A loop that ends at the first reported error leaves every later change queued for ever. *)
+Theorem c20_errors_ignored_safe : forall evs,
+  Watch.quiescent (Watch.base (Watch.run_e false Watch.RearmThenReload evs)) = true ->
+  Watch.fresh (Watch.base (Watch.run_e false Watch.RearmThenReload evs)) = true /\
+  Watch.watched (Watch.base (Watch.run_e false Watch.RearmThenReload evs)) = true /\
+  Watch.halted (Watch.run_e false Watch.RearmThenReload evs) = false.
+Proof. exact WatchProofs.errors_ignored_safe. Qed.
+Print Assumptions c20_errors_ignored_safe.
+
+Theorem c20_stop_on_error_refuted : forall o,
+  exists evs, Watch.pend_w (Watch.base (Watch.run_e true o evs)) = true /\ Watch.fresh (Watch.base (Watch.run_e true o evs)) = false /\
+              forall k, Watch.run_e true o (evs ++ repeat (Watch.Ev Watch.Step) k) = Watch.run_e true o evs.
+Proof. exact WatchProofs.stop_on_error_refuted. Qed.
+Print Assumptions c20_stop_on_error_refuted.
